@@ -22,10 +22,14 @@ Inductive stmt : Set :=
 | SBreak
 | SContinue
 | SReturn (l : label)                         (* l: the (traced) evaluation of the return value *)
-(* try / with / raise.  Exceptions come from `raise` statements only (atoms do not raise in this
-   language).  When the body of a try raises, the next decision selects the handler that matches (its
-   index; an index past the last handler = no handler matches and the exception propagates) -- an
-   over-approximation of matching by exception type, which the passes do not touch.  The else clause runs
+(* try / with / raise.  Exceptions come from `raise` statements and from user statements / return values
+   with an ODD label (`raises`): such a statement consumes a decision that says whether its evaluation
+   raises (labels are arbitrary, so quantifying over programs covers every choice of which statements can
+   raise).  `raise` with label 0 is the bare re-raise (nothing is evaluated, nothing traced).  When the
+   body of a try raises: if the first handler is a bare `except:` it runs; otherwise the next decision
+   selects the handler that matches (its index; an index past the last handler = no handler matches and
+   the exception propagates) -- an over-approximation of matching by exception type, which the passes do
+   not touch.  The else clause runs
    when the body completes normally, the finally clause always runs.  A finally clause that does not
    complete normally (which would override the pending jump or exception) has no rule: a run that
    reaches that is stuck and the theorems say nothing about it.  A context manager that swallows the
@@ -34,7 +38,8 @@ Inductive stmt : Set :=
 | SWith (l : label) (body : block)
 | SRaise (l : label)
 with block : Set := BNil | BCons (s : stmt) (b : block)
-with blocks : Set := HNil | HCons (b : block) (h : blocks).
+(* handlers: `all` = a bare `except:` clause (catches everything) *)
+with blocks : Set := HNil | HCons (all : bool) (b : block) (h : blocks).
 
 Fixpoint bapp (a b : block) : block :=
   match a with BNil => b | BCons s r => BCons s (bapp r b) end.
@@ -53,8 +58,19 @@ Definition dnat (d : decisions) : nat := match d with [] => 0 | c :: _ => c end.
 Fixpoint hsel (hs : blocks) (n : nat) : option block :=
   match hs with
   | HNil => None
-  | HCons b r => match n with 0 => Some b | S m => hsel r m end
+  | HCons _ b r => match n with 0 => Some b | S m => hsel r m end
   end.
+Definition dispatch (hs : blocks) (d : decisions) : option block * decisions :=
+  match hs with
+  | HCons true b _ => (Some b, d)
+  | _ => (hsel hs (dnat d), dtail d)
+  end.
+
+(* user statements and return values that can raise; (raised?, decisions left) *)
+Definition raises (l : label) : bool := Nat.odd l.
+Definition atom_res (l : label) (d : decisions) : bool * decisions :=
+  if raises l then (negb (Nat.eqb (dnat d) 0), dtail d) else (false, d).
+Definition rtrace (l : label) : list label := if Nat.eqb l 0 then [] else [l].
 
 (* value of a test, the user tests it evaluated, remaining decisions *)
 Fixpoint ceval (c : cond) (s : store) (d : decisions) : bool * list label * decisions :=
@@ -71,11 +87,11 @@ Fixpoint exec_stmt (n : nat) (st : stmt) (s : store) (d : decisions) {struct n} 
   | 0 => ([], OFuel, s, d)
   | S n' =>
     match st with
-    | SAtom l => ([l], ONormal, s, d)
+    | SAtom l => ([l], if fst (atom_res l d) then ORaise else ONormal, s, snd (atom_res l d))
     | SSet f v => ([], ONormal, upd s f v, d)
     | SBreak => ([], OBrk, s, d)
     | SContinue => ([], OCont, s, d)
-    | SReturn l => ([l], ORet, s, d)
+    | SReturn l => ([l], if fst (atom_res l d) then ORaise else ORet, s, snd (atom_res l d))
     | SIf c b1 b2 =>
         let '(v, tc, d1) := ceval c s d in
         let '(tr, o, s', d') := exec_block n' (if v then b1 else b2) s d1 in
@@ -100,9 +116,9 @@ Fixpoint exec_stmt (n : nat) (st : stmt) (s : store) (d : decisions) {struct n} 
         let '(tr2, o2, s2, d2) :=
           match ob with
           | ONormal => exec_block n' orelse s1 d1
-          | ORaise => match hsel hs (dnat d1) with
-                      | Some h => exec_block n' h s1 (dtail d1)
-                      | None => ([], ORaise, s1, dtail d1)
+          | ORaise => match dispatch hs d1 with
+                      | (Some h, d1') => exec_block n' h s1 d1'
+                      | (None, d1') => ([], ORaise, s1, d1')
                       end
           | _ => ([], ob, s1, d1)
           end in
@@ -116,7 +132,7 @@ Fixpoint exec_stmt (n : nat) (st : stmt) (s : store) (d : decisions) {struct n} 
           | _ => (tr1 ++ tr2 ++ tr3, OStuck, s3, d3)       (* a jump out of finally: outside the semantics *)
           end
         end
-    | SRaise l => ([l], ORaise, s, d)
+    | SRaise l => (rtrace l, ORaise, s, d)
     end
   end
 with exec_block (n : nat) (b : block) (s : store) (d : decisions) {struct n} : res :=
@@ -136,11 +152,11 @@ with exec_block (n : nat) (b : block) (s : store) (d : decisions) {struct n} : r
 
 (* the same semantics as a relation (no fuel): what the theorems are stated on *)
 Inductive run_stmt : stmt -> store -> decisions -> list label -> outcome -> store -> decisions -> Prop :=
-| RAtom l s d : run_stmt (SAtom l) s d [l] ONormal s d
+| RAtom l s d : run_stmt (SAtom l) s d [l] (if fst (atom_res l d) then ORaise else ONormal) s (snd (atom_res l d))
 | RSet f v s d : run_stmt (SSet f v) s d [] ONormal (upd s f v) d
 | RBreak s d : run_stmt SBreak s d [] OBrk s d
 | RContinue s d : run_stmt SContinue s d [] OCont s d
-| RReturn l s d : run_stmt (SReturn l) s d [l] ORet s d
+| RReturn l s d : run_stmt (SReturn l) s d [l] (if fst (atom_res l d) then ORaise else ORet) s (snd (atom_res l d))
 | RIf c b1 b2 s d v tc d1 tr o s' d' :
     ceval c s d = (v, tc, d1) -> run_block (if v then b1 else b2) s d1 tr o s' d' ->
     run_stmt (SIf c b1 b2) s d (tc ++ tr) o s' d'
@@ -167,16 +183,16 @@ Inductive run_stmt : stmt -> store -> decisions -> list label -> outcome -> stor
     run_block body s d tr1 ob s1 d1 -> ob <> ONormal -> ob <> ORaise ->
     run_block final s1 d1 tr3 ONormal s3 d3 ->
     run_stmt (STry body hs orelse final) s d (tr1 ++ tr3) ob s3 d3
-| RTryU body hs orelse final s d tr1 s1 d1 tr3 s3 d3 :        (* no handler matches *)
-    run_block body s d tr1 ORaise s1 d1 -> hsel hs (dnat d1) = None ->
-    run_block final s1 (dtail d1) tr3 ONormal s3 d3 ->
+| RTryU body hs orelse final s d tr1 s1 d1 d1' tr3 s3 d3 :        (* no handler matches *)
+    run_block body s d tr1 ORaise s1 d1 -> dispatch hs d1 = (None, d1') ->
+    run_block final s1 d1' tr3 ONormal s3 d3 ->
     run_stmt (STry body hs orelse final) s d (tr1 ++ tr3) ORaise s3 d3
-| RTryH body hs orelse final s d tr1 s1 d1 h tr2 oh s2 d2 tr3 s3 d3 :   (* handler h runs *)
-    run_block body s d tr1 ORaise s1 d1 -> hsel hs (dnat d1) = Some h ->
-    run_block h s1 (dtail d1) tr2 oh s2 d2 ->
+| RTryH body hs orelse final s d tr1 s1 d1 d1' h tr2 oh s2 d2 tr3 s3 d3 :   (* handler h runs *)
+    run_block body s d tr1 ORaise s1 d1 -> dispatch hs d1 = (Some h, d1') ->
+    run_block h s1 d1' tr2 oh s2 d2 ->
     run_block final s2 d2 tr3 ONormal s3 d3 ->
     run_stmt (STry body hs orelse final) s d (tr1 ++ tr2 ++ tr3) oh s3 d3
-| RRaise l s d : run_stmt (SRaise l) s d [l] ORaise s d
+| RRaise l s d : run_stmt (SRaise l) s d (rtrace l) ORaise s d
 with run_block : block -> store -> decisions -> list label -> outcome -> store -> decisions -> Prop :=
 | RNil s d : run_block BNil s d [] ONormal s d
 | RConsN st r s d tr s1 d1 tr2 o2 s2 d2 :
